@@ -166,7 +166,20 @@ def run_impl(case):
         if k == 'E' and err is None:
             o['ret'] = None if ret is None else C02.enc(ret)
         steps.append(o)
-    return {'steps': steps}
+    res = {'steps': steps}
+    names = tr.getListAnalyticalFeatures()
+    if len(names) >= 2 and steps and not steps[-1].get('stop'):
+        # the track concatenated with a twin that lists the same features in another column order (the first one deleted and written again): the sum either lists no feature,
+        # or every name reads the values written under that name on both halves
+        try:
+            twin = tr.copy()
+            first = names[0]; vals = twin[first]
+            twin.removeAnalyticalFeature(first); twin.createAnalyticalFeature(first, list(vals))
+            ssum = tr + twin
+            res['probe'] = {'names': ssum.getListAnalyticalFeatures(), 'cols': [enc(ssum[k]) for k in ssum.getListAnalyticalFeatures()], 'single': {k: enc(tr[k]) for k in names}}
+        except Exception as ex:
+            res['probe'] = {'exc': type(ex).__name__}
+    return res
 
 
 def _col(l):
@@ -293,6 +306,14 @@ def oracle(case, obs):
                 return '%s coordinate %s reads %r, expected %r' % (what, c, st[c], co[c])
         if st['t'] != [1000.0 + 10 * i for i in range(n)]:
             return '%s timestamps changed' % what
+    pr = obs.get('probe')
+    if pr:
+        if 'exc' in pr:
+            return 'concatenating the track with a twin listing the same features in another order raised %s' % pr['exc']
+        for k, colv in zip(pr['names'], pr['cols']):
+            want = pr['single'][k] + pr['single'][k]
+            if not C02.close_lists(colv, [nan if v is None else v for v in want]):
+                return 'track + twin (same features, another column order): reading %r gives %r, the values written under that name are %r' % (k, colv, want)
     return None
 
 
